@@ -49,6 +49,9 @@ func baseEnv() []string {
 	set("GONOSUMDB", "*")
 	set("GONOSUMCHECK", "1")
 	set("GOFIPS140", "off")
+	// the C simulator bails out of a looping module with longjmp; leaks are accounted for by
+	// the simulator itself (memory/leak, password/leaked-buffer), not by LeakSanitizer
+	set("ASAN_OPTIONS", "detect_leaks=0:abort_on_error=0")
 	return env
 }
 
@@ -291,6 +294,15 @@ func check(verifDir, repo, id, tier, replay string) int {
 		}
 		bin = b
 	}
+	pamsimBin := ""
+	if meta.Pkg == "sasl" {
+		// C05 / C13 feed server replies and requests to the compiled PAM module
+		if b, err := buildPam(verifDir, repo); err == nil {
+			pamsimBin = b
+		} else {
+			die2("build pamsim: %v", err)
+		}
+	}
 	findings := loadFindings(verifDir)
 	var knownSigs []string
 	for _, f := range findings {
@@ -352,7 +364,7 @@ func check(verifDir, repo, id, tier, replay string) int {
 				"VERIF_PROP="+id, "VERIF_TIER="+tier, fmt.Sprintf("VERIF_BASE=%d", seed),
 				fmt.Sprintf("VERIF_FROM=%d", k), fmt.Sprintf("VERIF_TO=%d", maxRuns), fmt.Sprintf("VERIF_STRIDE=%d", nworkers),
 				fmt.Sprintf("VERIF_BUDGET_MS=%d", budget*1000), "VERIF_OUT="+out, "VERIF_CUR="+cur,
-				"VERIF_KNOWN="+strings.Join(knownSigs, ","), "GOMAXPROCS=2", "VERIF_REPO_DIR="+repo, "VERIF_DIR="+verifDir)
+				"VERIF_KNOWN="+strings.Join(knownSigs, ","), "GOMAXPROCS=2", "VERIF_REPO_DIR="+repo, "VERIF_DIR="+verifDir, "VERIF_PAMSIM="+pamsimBin)
 			var ob bytes.Buffer
 			cmd.Stdout, cmd.Stderr = &ob, &ob
 			err := cmd.Run()
@@ -541,6 +553,12 @@ func firstLines(s string, n int) string {
 // crashSignature classifies a process-level crash by the first frame inside the code
 // under test (file paths map to the repo through //line directives).
 func crashSignature(out, repo string) string {
+	if strings.Contains(out, "AddressSanitizer") {
+		return "sanitizer/address"
+	}
+	if strings.Contains(out, "runtime error:") && strings.Contains(out, "pam_whawty.c") {
+		return "sanitizer/undefined-behaviour"
+	}
 	if !strings.Contains(out, "panic:") && !strings.Contains(out, "fatal error:") {
 		return ""
 	}
@@ -596,6 +614,19 @@ func runReplay(bin, scratch, id, rp string, known []string, meta propInfo) (*res
 	os.MkdirAll(wd, 0o755)
 	cmd := workerCmd(bin, meta, wd)
 	cmd.Env = append(baseEnv(), "VERIF_PROP="+id, "VERIF_REPLAY="+rp, "VERIF_OUT="+out, "VERIF_KNOWN="+strings.Join(known, ","), "GOMAXPROCS=2")
+	if meta.Pkg == "pam" {
+		// the C simulator takes the tape through the environment
+		if rb, err := os.ReadFile(rp); err == nil {
+			var rf replayFile
+			if json.Unmarshal(rb, &rf) == nil {
+				var vs []string
+				for _, v := range rf.Tape {
+					vs = append(vs, strconv.Itoa(v))
+				}
+				cmd.Env = append(cmd.Env, "VERIF_REPLAY_TAPE="+strings.Join(vs, ","), fmt.Sprintf("VERIF_REPLAY_SEED=%d", rf.Seed), "VERIF_TIER="+rf.Tier)
+			}
+		}
+	}
 	b, err := cmd.CombinedOutput()
 	for _, l := range readLines(out) {
 		if l.Type == "replay" {
